@@ -94,7 +94,7 @@ pub fn record_c11(args: &Args, mut out: Out) -> usize {
     let all_sigma: Vec<[usize; 4]> = perms(4).into_iter().map(|p| [p[0], p[1], p[2], p[3]]).collect();
     for b in 0..nbase {
         // bases that make suits matter: flush-heavy flops, suited combos, overlapping cards, ties
-        let mut cfg = match b % 4 {
+        let mut cfg = match b % 6 {
             0 => random_cfg(&mut rng, 2, 4, 1),
             1 => random_cfg(&mut rng, 3, 3, 1),
             2 => {
@@ -115,6 +115,31 @@ pub fn record_c11(args: &Args, mut out: Out) -> usize {
                     }
                     if r.is_empty() {
                         r.push(Entry { a: 0, b: 5, m: 1, e: 0 });
+                    }
+                    ranges.push(r);
+                }
+                Cfg { flop, ranges, from: (0, 1), to: (48, 49), scoped: false }
+            }
+            4 | 5 => {
+                // flush wars inside a band of six adjacent ranks (low band 7..2, a middle band, or the top band): the flop is
+                // three cards of one suit, every player holds one more card of that suit, turn/river may bring others -
+                // weak flushes, straight flushes and near ties in every suit once the suits are permuted
+                let s = rng.usize(4);
+                let lo = match rng.usize(3) { 0 => 7, 1 => rng.usize(7), _ => 0 };     // band = ranks lo..lo+5 (codes)
+                let mut band: Vec<usize> = (lo..lo + 6).collect();
+                rng.shuffle(&mut band);
+                let flop = [4 * band[0] + s, 4 * band[1] + s, 4 * band[2] + s];
+                let np = 2 + rng.usize(2);
+                let mut ranges = vec![];
+                for p in 0..np {
+                    let mut r = vec![];
+                    let own = 4 * band[3 + p % 3] + s;
+                    for _ in 0..(1 + rng.usize(2)) {
+                        let side = 4 * rng.usize(13) + (s + 1 + rng.usize(3)) % 4;
+                        let (a, bb) = norm(own, side);
+                        if !r.iter().any(|e: &Entry| e.a == a && e.b == bb) {
+                            r.push(Entry { a, b: bb, m: 1, e: rng.usize(3) as u32 });
+                        }
                     }
                     ranges.push(r);
                 }
